@@ -89,6 +89,30 @@ class Ctx:
 
 
 # ------------------------------------------------------------------ Coq side
+class Timeout(Exception):
+    pass
+
+
+class time_limit(object):
+    """with time_limit(5): ...   raises Timeout in the main thread if the block runs longer (SIGALRM; pure-Python loops)"""
+    def __init__(self, seconds):
+        self.seconds = seconds
+
+    def _fire(self, *_):
+        raise Timeout('no result after %s s' % self.seconds)
+
+    def __enter__(self):
+        import signal
+        self.old = signal.signal(signal.SIGALRM, self._fire)
+        signal.setitimer(signal.ITIMER_REAL, self.seconds)
+
+    def __exit__(self, *exc):
+        import signal
+        signal.setitimer(signal.ITIMER_REAL, 0)
+        signal.signal(signal.SIGALRM, self.old)
+        return False
+
+
 def sh(cmd, timeout, cwd=None, env=None):
     try:
         p = subprocess.run(cmd, shell=isinstance(cmd, str), cwd=cwd, env=env, stdout=subprocess.PIPE,
